@@ -121,13 +121,14 @@ class SoftSKPair(SSHKeyPair):
     """What the client holds: the token, optionally a certificate over its
     public key, and how the token is going to answer."""
 
-    def __init__(self, token, cert, sig):
+    def __init__(self, token, cert, sig, kapp=SK_APP):
         alg = token.alg
-        super().__init__(alg, alg, (alg,), (alg,), token.pubkey.public_data,
-                         None, cert)
+        super().__init__(alg, alg, (alg,), (alg,),
+                         token.public(kapp).public_data, None, cert)
         self._token = token
         self._flags = (SK_UP if sig['up'] else 0) | (SK_UV if sig['uv'] else 0)
-        self._app = SK_APP if sig['app'] == 'same' else SK_OTHER_APP
+        other = SK_OTHER_APP if kapp == SK_APP else SK_APP
+        self._app = kapp if sig['app'] == 'same' else other
 
     def sign(self, data):
         return self._token.sign(data, self._flags, 7, self._app)
@@ -140,18 +141,19 @@ def token(ktype):
     return _keys[ktype]
 
 
-def user_public(ktype='ed25519'):
+def user_public(ktype='ed25519', kapp=SK_APP):
     if ktype in SK_ALGS:
-        return token(ktype).pubkey
+        return token(ktype).public(kapp)
     return K()['user'].convert_to_public()
 
 
-def pub(name, ktype='ed25519'):
+def pub(name, ktype='ed25519', kapp=SK_APP):
     """authorized_keys text of the named key; for a security-key row "user"
-    is the token's key and "user-otherapp" the same public value under
-    another application id."""
+    is the token's key as the client presents it and "user-otherapp" the
+    same public value under the other application id."""
     if name in ('user', 'user-otherapp') and ktype in SK_ALGS:
-        key = token(ktype).public(SK_APP if name == 'user' else SK_OTHER_APP)
+        other = SK_OTHER_APP if kapp == SK_APP else SK_APP
+        key = token(ktype).public(kapp if name == 'user' else other)
     else:
         key = K()['other' if name == 'user-otherapp' else name]
     return key.export_public_key('openssh').decode().strip()
@@ -171,7 +173,7 @@ def quote(v):
     return '"' + v.replace('\\', '\\\\').replace('"', '\\"') + '"'
 
 
-def entry_line(e, keyname, ktype='ed25519'):
+def entry_line(e, keyname, ktype='ed25519', kapp=SK_APP):
     """authorized_keys line for an abstract entry e (dict with flags: list of
     flag tokens in order, cmd, open: list of 'host:port', frm: list of from=
     values, princ: list of principals= values, env: list of 'N=V', ca: bool)."""
@@ -191,17 +193,17 @@ def entry_line(e, keyname, ktype='ed25519'):
         opts.append('environment=' + quote(v))
     if keyname is None:
         return ','.join(opts)
-    line = pub(keyname, ktype)
+    line = pub(keyname, ktype, kapp)
     return (','.join(opts) + ' ' if opts else '') + line
 
 
-def make_cert(c, ktype='ed25519'):
+def make_cert(c, ktype='ed25519', kapp=SK_APP):
     """Real OpenSSH user certificate for the abstract certificate c."""
     key = (tuple(sorted(c.get('ext', ()))), c.get('force'),
            tuple(c.get('src') or ()), tuple(c.get('principals', ())),
            c.get('valid', 'ok'), c.get('ctype', 'user'), c.get('ca', 'ca'),
-           ktype, bool(c.get('notouch')))
-    subject = user_public(ktype)
+           ktype, kapp, bool(c.get('notouch')))
+    subject = user_public(ktype, kapp)
     if key in _cert_cache:
         return _cert_cache[key]
     now = int(time.time())
@@ -258,7 +260,8 @@ def run_case(case, ops=PERM_OPS, requests=(), dests=(), client_env=None):
     files = None                        # user -> SSHAuthorizedKeys
     k = K()
     ktype = case.get('ktype', 'ed25519')
-    user_pub = user_public(ktype)
+    kapp = case.get('kapp', SK_APP)
+    user_pub = user_public(ktype, kapp)
     cas = {n: k[n].convert_to_public() for n in ('ca', 'otherca')}
 
     class Sess(asyncssh.SSHServerSession):
@@ -338,7 +341,7 @@ def run_case(case, ops=PERM_OPS, requests=(), dests=(), client_env=None):
             return False
 
     lines = [entry_line(e, e.get('key', 'ca' if e.get('ca') else 'user'),
-                        ktype)
+                        ktype, kapp)
              for e in case.get('entries', ())]
     skw = {}
     out = {'accepted': False, 'server_accepted': False, 'granted': None,
@@ -365,8 +368,9 @@ def run_case(case, ops=PERM_OPS, requests=(), dests=(), client_env=None):
     elif ktype in SK_ALGS:
         cert = case.get('cert')
         ckw['client_keys'] = [SoftSKPair(
-            token(ktype), None if cert is None else make_cert(cert, ktype),
-            case.get('sig') or dict(up=True, uv=False, app='same'))]
+            token(ktype),
+            None if cert is None else make_cert(cert, ktype, kapp),
+            case.get('sig') or dict(up=True, uv=False, app='same'), kapp)]
     elif case.get('cert') is not None:
         # the certificate ONLY (a (key, cert) tuple would make the client
         # offer the plain key as well: a second credential)
@@ -672,7 +676,7 @@ def to_case(cred):
     case = dict(method=cred['method'], entries=entries, cert=cert,
                 cb_key=cred['cbkey'], cb_ca=cred['cbca'], user=cred['user'],
                 addr=cred['addr'], ktype=cred.get('ktype', 'ed25519'),
-                sig=cred.get('sig'))
+                kapp=cred.get('kapp', SK_APP), sig=cred.get('sig'))
     kw = {'ops': PERM_OPS}
     sec = cred['sec']
     if sec == 'sk':
@@ -698,7 +702,8 @@ def describe(case):
     c = case['cert']
     if case.get('ktype', 'ed25519') in SK_ALGS:
         g = case['sig']
-        parts.insert(1, f'{case["ktype"]}[up={int(g["up"])},uv={int(g["uv"])}'
+        parts.insert(1, f'{case["ktype"]}({case.get("kapp", SK_APP)})'
+                        f'[up={int(g["up"])},uv={int(g["uv"])}'
                         f',app={g["app"]}]')
     if c is not None:
         extra = [f'{k}={c[k]}' for k in ('force', 'src') if c[k]]
